@@ -152,8 +152,15 @@ def origins(body, x, depth=24, transparent=TRANSPARENT, _seen=None):
             rv = st["rv"]
             k = rv["k"]
             if k == "use":
-                for o in origins(body, rv["ops"][0], depth - 1, transparent, _seen):
-                    res.append(Origin(o.kind, o.name, o.site, o.path + tuple(rest), o.body, o.extra))
+                op0 = rv["ops"][0]
+                if rest and op0["k"] in ("copy", "move"):
+                    # `x = move y; .. x.f ..`: look at y.f (field-sensitive through plain moves: a tuple / struct returned by an
+                    # inlined helper and taken apart by the caller)
+                    sub = {"l": op0["pl"]["l"], "p": list(op0["pl"]["p"]) + [{"f": int(r) if r.isdigit() else -1, "n": "" if r.isdigit() else r} for r in rest]}
+                    res += origins(body, sub, depth - 1, transparent, _seen)
+                else:
+                    for o in origins(body, op0, depth - 1, transparent, _seen):
+                        res.append(Origin(o.kind, o.name, o.site, o.path + tuple(rest), o.body, o.extra))
             elif k in ("ref", "rawptr"):
                 for o in origins(body, rv["pl"], depth - 1, transparent, _seen):
                     res.append(Origin(o.kind, o.name, o.site, o.path + tuple(rest), o.body, o.extra))
